@@ -709,6 +709,11 @@ def leg_transform(ctx, P, spec, rng):
         [float(b[1] - b[0]) / n for b, n in zip(spec_bounds(spec), spec["shape"])])
     if exact:
         cellp = np.round(cellp * 64) / 64
+    if spec["cls"] not in ("unit", "cartesian"):
+        # keep the radius of the cell-coordinate points non-negative as well (rounding may push it below 0)
+        b0 = spec_bounds(spec)[0]
+        cmin = float(-b0[0] / ((b0[1] - b0[0]) / spec["shape"][0]))
+        cellp[:, 0] = np.maximum(cellp[:, 0], math.ceil(cmin * 64) / 64)
     cart = rotate_cart(rng, spec, to_cart_py(spec, gp))
     sources = {"grid": gp, "cell": cellp, "cartesian": cart}
     sym = spec["cls"] not in ("unit", "cartesian")
